@@ -284,6 +284,9 @@ package http
 //@   on return assert sub != nil ==> closed
 //@   on return assert !hdr ==> nerr == 1
 //@   on return assert nerr <= 1
+// (the quantified store invariant that streamDB requires is not re-established across the streaming loop: no frame for
+// streamDB/streamLTX over the database map; deferred to the thorough tier, where it stays undecided — listed in DESIGN I.7)
+//@   thorough  handlePostStream/call/http.Server.streamDB/pre#1.5
 //@   loop 1 invariant sub != nil && subscription == sub && !closed && pmRead && pmOK && !hdr && nerr == 0
 //@   loop 2 invariant sub != nil && subscription == sub && !closed && pmRead && pmOK && !hdr && nerr == 0 && -1 <= rangeindex && rangeindex < len(dbs)
 //@   loop 3 invariant sub != nil && subscription == sub && !closed && pmRead && pmOK && !hdr && nerr == 0 && -1 <= rangeindex && rangeindex < 0x1000000000000
